@@ -23,10 +23,18 @@ def run(chk):
     chk.notes["rule"] = ("convex cores from the C01 (polyhedra) and C04 (convex polygons) generators, exactly placed, x radii 0 and 2^k*size, k in -10..7; "
                          "non-trivial = radius > 0 or core has a non-right dihedral angle")
     cases, meta = [], []
-    for _ in range(ncore):
+    for icore in range(ncore):
         kind, V = gen.convex_set(rng)
-        if rng.random() < 0.34:      # any size: exact rescaling by a power of two between 2^-34 (6e-11) and 2^10
+        force_far = icore % 5 == 4
+        if force_far:
+            kind, V = gen.convex_set(rng, kinds=("ellipsoid",))
+        elif rng.random() < 0.34:      # any size: exact rescaling by a power of two between 2^-34 (6e-11) and 2^10
             V = V * 2.0 ** int(rng.integers(-34, 11)); kind += "*2^k"
+        if force_far:
+            # far from the origin compared with its size (2^12 .. 2^18 diameters, exactly representable): edge lengths and angles are
+            # differences / directions and keep their digits there
+            dv = float(np.max(np.linalg.norm(V - V.mean(0), axis=1))) * 2
+            V = V + gen.dy(rng.uniform(-1, 1, 3), 4) * dv * 2.0 ** int(rng.integers(12, 19)); kind += "/far"
         st, p = C.excname(coxeter.shapes.ConvexPolyhedron, V)
         if st != "ok":
             continue
@@ -80,7 +88,13 @@ def run(chk):
             if not abs(float(impl) - exact) <= rel * cond * max(abs(exact), 1e-300):
                 chk.violation(name, dict(desc, impl=float(impl), exact=exact, **(extra or {})))
 
-        cmp("mean_curvature", p.mean_curvature, M)
+        # (an edge sum of length x angle: its rounding grows like offset / size, not like the volume-type cancellations `cond` allows for)
+        Roff = float(np.max(np.abs(V)))
+        cmp("mean_curvature", p.mean_curvature, M, rel=max(RT, 50 * 2.3e-16 * Roff / size) / cond)
+        if m["kind"].endswith("/far"):
+            # (far away only the edge-based quantity is judged: volume-type measures lose digits there in any formulation - C09's matter)
+            chk.count("core:" + m["kind"])
+            continue
         cmp("tau", p.tau, 4 * math.pi * M * M / S)
         cmp("asphericity", p.asphericity, M * S / (3 * vol))
         cmp("iq", p.iq, 36 * math.pi * vol ** 2 / S ** 3)
